@@ -9,7 +9,7 @@ Import ListNotations.
 From Chiri Require Import Base.Bytes Base.Res Model.Tokenizer Model.TagParser Model.TreeParser Model.Markers
      Model.Format Model.Clean Model.ListRender
      Proofs.TokenizerProofs Proofs.TagProofs Proofs.CollectProofs Proofs.CleanProofs Proofs.ListAllProofs
-     Proofs.FormatterProofs.
+     Proofs.FormatterProofs Proofs.ListOutputs.
 
 (** clean returns normally, with a well-formed UTF-8 string, for every well-formed source, every
     pair of non-empty delimiters and every configuration. *)
@@ -28,6 +28,16 @@ Theorem C01_list_total :
     (exists o, list_all_pretty cfg ds de s = Ok o) /\ (exists o, list_all_json cfg ds de s = Ok o).
 Proof. exact list_total. Qed.
 Print Assumptions C01_list_total.
+
+(** ... and what they return is well-formed UTF-8. *)
+Theorem C01_list_outputs_well_formed :
+  forall cfg ds de s o,
+    wf_utf8 s = true ->
+    (list_pretty cfg ds de s = Ok o \/ list_json cfg ds de s = Ok o \/
+     list_all_pretty cfg ds de s = Ok o \/ list_all_json cfg ds de s = Ok o) ->
+    wf_utf8 o = true.
+Proof. exact list_outputs_wf. Qed.
+Print Assumptions C01_list_outputs_well_formed.
 
 (** The stages behind it. *)
 Theorem C01_tokenize_total :
@@ -57,9 +67,9 @@ Theorem C01_block_formatter_total : forall s a b, exists rs, block_indent_remove
 Proof. exact block_indent_total. Qed.
 Print Assumptions C01_block_formatter_total.
 
-(** Not covered by any theorem: that the outputs of list / list_all are valid UTF-8 (validated by the
-    differential run, which decodes every output), stack exhaustion on extremely deep nesting, and
-    memory exhaustion. *)
+(** Not covered by any theorem: stack exhaustion on extremely deep nesting, memory exhaustion.
+    ([wf_utf8] is structural well-formedness, weaker than RFC 3629 validity; the differential run
+    decodes every output of the implementation as UTF-8.) *)
 
 (** Non-vacuity: the three panic classes of the pinned tree now return normally in the model:
     last character multi-byte with an unterminated tag; blank tag body; a child on both wrapper lines. *)
